@@ -151,8 +151,8 @@ CLAIMS = {
         "technique": "linear-resource rule (by-value consumers on all paths), success-edge dominance, who-calls/who-writes",
     },
     "C24": {
-        "text": "Decides one clause: every path passed to selection.set is the recorded candidate, candidates are recorded only for elements of ctx.paths() with Some stats, no candidate => untouched PathSelection::none(); select_path replaces selected_path only with the selector's Some(addr) (elsewhere only cleared). Tiering and thresholds are values and not decided.",
-        "technique": "success-edge dominance + derives-from on the candidate slot, who-writes",
+        "text": "Decides one clause: every path passed to selection.set is the recorded candidate, candidates are recorded only for elements of ctx.paths() with Some stats, no candidate => untouched PathSelection::none(); select_path replaces selected_path only with the selector's Some(addr) (elsewhere only cleared). Ranking is decided as relations: `best` and `current_key` are running minima (overwritten exactly when empty or the new key is smaller, extracted as truth functions over slot states), the switching decision is exactly `candidate && (no current key || tiers differ || best_biased + RTT_SWITCHING_MIN <= current_biased)` with checked operand provenance, keys are (tier, rtt saturating_add bias) with derived order Primary < Backup, the default bias table (IPv4/IPv6 primary, IPv6 minus IPV6_RTT_ADVANTAGE, relay backup) and the constants 5 ms / 3 ms. Arithmetic on RTT values is not evaluated.",
+        "technique": "success-edge dominance + derives-from on the candidate slot, who-writes, decision-tree (truth-function) extraction of the accumulator updates and the switching decision, operand provenance, enum-order and constant tables",
     },
     "C27": {
         "text": "Decides: Probe kind <-> latency map table agreement across update_relay/merge/iter/is_empty/get; the only store into an existing latency is under `new < old`; write-once discipline of global_v4/v6 and mapping_varies (Some(true) only on a differing later address, Some(false) only on agreement with nothing recorded), wrong-family early return, per-family field sets. Commutativity over histories as values is not decided.",
